@@ -207,4 +207,56 @@ theorem replicatedPaths_eq (globs : List Str) (m : Str → Bool) (hm : ∀ p, ma
   unfold replicatedPaths
   simp only [allCands_eq globs m hm, candM_eq globs m hm]
 
+/-! ## suffix patterns (`*` ++ literal) -/
+
+theorem matchPat_lits_eq (k s : Str) : matchPat (k.map Pat.lit) s = decide (s = k) := by
+  have := matchPat_lits k [] s
+  simp only [List.append_nil] at this
+  rw [this]
+  simp only [matchPat]
+  by_cases h : s = k
+  · subst h; simp
+  · simp only [h, decide_false]
+    cases hp : k.isPrefixOf s with
+    | false => simp
+    | true =>
+      simp only [Bool.true_and]
+      rw [List.isPrefixOf_iff_prefix] at hp
+      obtain ⟨t, rfl⟩ := hp
+      cases t with
+      | nil => simp at h
+      | cons a t => simp
+
+theorem anySuffix_eq_suffix (k : Str) : ∀ s : Str, anySuffix (fun t => decide (t = k)) s = decide (k <:+ s)
+  | [] => by
+    simp only [anySuffix, List.suffix_nil]
+    by_cases h : k = [] <;> simp [h, eq_comm]
+  | c :: t => by
+    simp only [anySuffix, anySuffix_eq_suffix k t, List.suffix_cons_iff]
+    by_cases h1 : c :: t = k <;> by_cases h2 : k <:+ t <;> simp [h1, h2, eq_comm]
+    · exact fun h => h1 h.symm
+
+theorem parse_star_lits (k : Str) (hl : Literal k) : parse (42 :: k) = some (Pat.star :: k.map Pat.lit) := by
+  unfold parse
+  simp only [List.length_cons, parseAux]
+  have := parseAux_literal_prefix k 0 [] hl
+  simp only [List.append_nil, Nat.add_zero] at this
+  rw [this]
+  cases k with
+  | nil => simp [parseAux]
+  | cons c k => simp [parseAux]
+
+/-- **`*suffix` selects exactly the paths that end with the suffix** (e.g. `**/bias`, `*.weight`): for a suffix
+without glob metacharacters, `fnmatch(path, "*" + suffix)` holds iff `path` ends with it; `*` crosses `/`. -/
+theorem glob_suffix (k : Str) (hl : Literal k) (path : Str) :
+    fnmatch path (42 :: k) = some (decide (k <:+ path)) := by
+  unfold fnmatch
+  rw [parse_star_lits k hl]
+  simp only [Option.map_some, Option.some.injEq, matchPat]
+  have : matchPat (k.map Pat.lit) = fun t => decide (t = k) := funext (matchPat_lits_eq k)
+  rw [this, anySuffix_eq_suffix]
+
+example : fnmatch [109, 47, 98] [42, 47, 98] = some true := by decide
+example : fnmatch [109, 47, 98, 50] [42, 47, 98] = some false := by decide
+
 end Ts.Glob
